@@ -23,6 +23,7 @@ mod recxof;
 mod prio3rec;
 mod poplar1rec;
 mod c13;
+mod c14;
 mod c16;
 mod c19;
 mod c20;
@@ -63,6 +64,7 @@ fn main() {
         ("c19", "record") => c19::record(rest),
         ("c06", "record") => c06::record(rest, stdin_lines()),
         ("poplar1", "record") => poplar1rec::record(rest),
+        ("c14", "record") => c14::record(rest),
         ("c12", "replay") => c12::replay(rest[0].parse().unwrap(), stdin_lines()),
         (p, m) => {
             eprintln!("unknown property/mode {p} {m}");
